@@ -6,6 +6,7 @@ package main
 // with end="error" (never silently skipped).
 
 import (
+	"time"
 	"fmt"
 	"go/constant"
 	"go/token"
@@ -185,6 +186,7 @@ type Exec struct {
 	fresh    int
 	modPkgs  map[string]bool
 	maxPaths int
+	deadline time.Time // per-run wall-clock limit: a run that explodes ends in an error (the check falls back to its replay battery)
 	nPaths   int
 	cutW     []int
 }
@@ -627,6 +629,11 @@ func (x *Exec) explore(st *State) []*State {
 	for len(work) > 0 {
 		s := work[len(work)-1]
 		work = work[:len(work)-1]
+		if !x.deadline.IsZero() && time.Now().After(x.deadline) {
+			s.end = "error"
+			s.err = "time limit of the run exceeded (path explosion: " + fmt.Sprint(x.nPaths) + " paths finished, " + fmt.Sprint(len(work)) + " pending)"
+			return append(done, s)
+		}
 		forks := x.runOne(s)
 		if forks == nil {
 			done = append(done, s)
